@@ -32,6 +32,8 @@ import (
 func guard(s *cases.Set, name string, in []byte, f func(b []byte)) {
 	buf := append([]byte{}, in...)
 	t0 := time.Now()
+	cases.Begin(fmt.Sprintf("%s:%x", name, in), map[string]interface{}{"entry": name, "input": fmt.Sprintf("%x", in)})
+	defer cases.End()
 	func() {
 		defer func() {
 			if r := recover(); r != nil {
@@ -64,6 +66,8 @@ func histTerm() string { return cq.List(history) }
 
 func phyCase(s *cases.Set, b []byte, kind string) {
 	o := cq.Err
+	cases.Begin(fmt.Sprintf("PHYPayload.UnmarshalBinary:%x", b), map[string]interface{}{"api": "PHYPayload.UnmarshalBinary", "bytes": fmt.Sprintf("%x", b)})
+	defer cases.End()
 	func() {
 		defer func() {
 			if r := recover(); r != nil {
@@ -81,6 +85,8 @@ func phyCase(s *cases.Set, b []byte, kind string) {
 
 func streamCase(s *cases.Set, up bool, b []byte) {
 	o := cq.Err
+	cases.Begin(fmt.Sprintf("DecodeFRMPayloadToMACCommands:%x", b), map[string]interface{}{"api": "DecodeFRMPayloadToMACCommands", "bytes": fmt.Sprintf("%x", b)})
+	defer cases.End()
 	func() {
 		defer func() {
 			if r := recover(); r != nil {
@@ -100,6 +106,8 @@ func streamCase(s *cases.Set, up bool, b []byte) {
 
 func cmdCase(s *cases.Set, up bool, b []byte) {
 	o := cq.Err
+	cases.Begin(fmt.Sprintf("MACCommand.UnmarshalBinary:%x", b), map[string]interface{}{"api": "MACCommand.UnmarshalBinary", "bytes": fmt.Sprintf("%x", b)})
+	defer cases.End()
 	func() {
 		defer func() {
 			if r := recover(); r != nil {
@@ -117,6 +125,8 @@ func cmdCase(s *cases.Set, up bool, b []byte) {
 
 func joinAccCase(s *cases.Set, b []byte) {
 	o := cq.Err
+	cases.Begin(fmt.Sprintf("JoinAcceptPayload.UnmarshalBinary:%x", b), map[string]interface{}{"api": "JoinAcceptPayload.UnmarshalBinary", "bytes": fmt.Sprintf("%x", b)})
+	defer cases.End()
 	func() {
 		defer func() {
 			if r := recover(); r != nil {
@@ -134,6 +144,8 @@ func joinAccCase(s *cases.Set, b []byte) {
 
 func cflistCase(s *cases.Set, b []byte) {
 	o := cq.Err
+	cases.Begin(fmt.Sprintf("CFList.UnmarshalBinary:%x", b), map[string]interface{}{"api": "CFList.UnmarshalBinary", "bytes": fmt.Sprintf("%x", b)})
+	defer cases.End()
 	func() {
 		defer func() {
 			if r := recover(); r != nil {
@@ -176,6 +188,7 @@ func main() {
 	s := cases.New("C09", dir, "LW.Corr.C09",
 		"malformed stream into every decoding entry point: uniform random bytes 0..512, truncations / extensions / bit flips of valid encodings; frame decode (binary, base64 text), MAC-command stream decode and decrypt-then-decode with random keys, join-accept decrypt, JoinAcceptPayload, CFList, single MAC commands, the four application-layer Commands decoders, backend HEXBytes / Frequency / Percentage / ISO8601Time / payload JSON; each call under recover() with a 200 ms budget and an input-buffer comparison; negative proprietary sizes in a child process with a 5 s kill timer. Cases evaluated in Coq: frame, stream, command, join-accept payload, CFList (others are Go-side properties). Non-trivial: inputs a decoder accepts.")
 	s.ShardSize = 300
+	s.Watchdog(3 * time.Second)
 	n := 120
 	if thorough {
 		n = 4000
